@@ -1,4 +1,730 @@
-import Cellml.Expr.Convert
+import Cellml.Expr.Semantics
+import Cellml.Expr.ConvertLemmas
+
+/-! # C05 — converting an expression to other units preserves its physical value
+
+    Model: `Convert.convert` (`UnitCalculator.convert_expression_recursively`, units.py 664-806, branch by branch) over
+    the mini-pint of C07. Semantics: `Sem.evalNum` (plain arithmetic on magnitudes) and `Sem.evalPhys` (the physical
+    quantity denoted) over ANY ordered field with an interpretation `Sem.Interp` of scales, rational powers and
+    functions whose laws are hypotheses (fields of the structure). Every theorem quantifies over all registries, all
+    variable environments, all expressions (induction on the expression; no bound on size or depth), all targets
+    (or none), all valuations of variables and derivatives. The tie to cellmlmanip is `harness/props/c05.py`. -/
+
 namespace Cellml.Props.C05
-theorem placeholder : True := trivial
+open Units Infer Convert Sem PMap
+
+variable {K : Type} [Field K] [LinearOrder K] [IsStrictOrderedRing K]
+
+/-! ## 1. `maybe_convert_expr` -/
+
+/-- what `maybe_convert_expr` can return -/
+theorem maybeConv_spec {reg : Registry} {ex : E} {wc : Bool} {frm : Container} {tgt : Option Container} {same : Bool}
+    {r : CR} (h : maybeConv reg ex wc frm tgt same = .ok r) :
+    (tgt = none ∧ r = ⟨ex, wc, frm, same⟩) ∨
+    (∃ t, tgt = some t ∧ factor reg frm t = .ok [] ∧ r = ⟨ex, wc, t, same⟩) ∨
+    (∃ t f, tgt = some t ∧ factor reg frm t = .ok f ∧ f ≠ [] ∧ f ≃ sub (toRoot reg frm).1 (toRoot reg t).1 ∧
+        r = ⟨.mul (.cf f (divC t frm)) ex, true, t, false⟩) := by
+  rcases Convert.maybeConv_spec h with h1 | h2 | ⟨t, f, ht, hf, hne, hr⟩
+  · exact Or.inl h1
+  · exact Or.inr (Or.inl h2)
+  · exact Or.inr (Or.inr ⟨t, f, ht, hf, hne, Cellml.Props.C07.factor_ratio reg frm t f hf, hr⟩)
+
+/-- between known units `maybe_convert_expr` raises UnitConversionError exactly when the dimensions differ -/
+theorem maybeConv_cannotConvert_iff {reg : Registry} {ex : E} {wc : Bool} {frm t : Container} {same : Bool}
+    (hk : allKnown reg frm = true) (hk' : allKnown reg t = true) :
+    maybeConv reg ex wc frm (some t) same = .error .cannotConvert ↔ ¬ dimsOf reg frm ≃ dimsOf reg t :=
+  Convert.maybeConv_cannotConvert_iff hk hk'
+
+/-- `maybe_convert_expr` preserves the physical value: magnitude × SI scale of the unit is unchanged, and so is the
+    dimension -/
+theorem maybeConv_value (I : Interp K) (ρ : Nat → K) (δ : Nat → Nat → K) {reg : Registry} {ex : E} {wc : Bool}
+    {frm : Container} {tgt : Option Container} {same : Bool} {r : CR}
+    (h : maybeConv reg ex wc frm tgt same = .ok r) :
+    evalNum I ρ δ r.e * I.φ (scaleOf reg r.u) = evalNum I ρ δ ex * I.φ (scaleOf reg frm) ∧
+    dimsOf reg r.u ≃ dimsOf reg frm := by
+  rcases maybeConv_spec h with ⟨_, rfl⟩ | ⟨t, _, hf, rfl⟩ | ⟨t, f, _, hf, _, hrat, rfl⟩
+  · exact ⟨rfl, PMap.Equiv.refl _⟩
+  · have hrat := Cellml.Props.C07.factor_ratio reg frm t [] hf
+    refine ⟨?_, (Cellml.Props.C07.factor_ok_same_dims reg frm t [] hf).symm⟩
+    simp only
+    rw [φ_scaleOf, φ_scaleOf, I.φ_eq_of_sub_nil hrat.symm]
+  · refine ⟨?_, (Cellml.Props.C07.factor_ok_same_dims reg frm t f hf).symm⟩
+    simp only [evalNum]
+    rw [φ_scaleOf, φ_scaleOf, I.φ_congr hrat, I.φ_sub]
+    have := I.φ_ne (toRoot reg t).1
+    field_simp
+
+/-! ## 2. with an explicit target the result is in the target unit -/
+
+/-- every construct returns the target itself; those that can only be dimensionless (relations, functions, `And`/`Or`/
+    `Not`, numbers) return `dimensionless` and accept no other target, so `actual_units == to_units` in every case -/
+theorem convert_target {reg : Registry} {Γ : VarEnv} {ex : E} {t : Container} {r : CR}
+    (h : convert reg Γ ex (some t) = .ok r) : r.u = t := Convert.convert_target ex t r h
+
+theorem convert_target_root {reg : Registry} {Γ : VarEnv} {ex : E} {t : Container} {r : CR}
+    (h : convert reg Γ ex (some t) = .ok r) : Units.toRoot reg r.u ≃₂ Units.toRoot reg t := by
+  rw [convert_target h]; exact Equiv₂.refl _
+
+/-- the dimensionless-only constructs -/
+theorem convert_target_dimless {reg : Registry} {Γ : VarEnv} {ex : E} {t : Container} {r : CR}
+    (hex : (∃ rr a b, ex = .rel rr a b) ∨ (∃ f a, ex = .fn1 f a) ∨ (∃ f a b, ex = .fnN f a b) ∨
+           (∃ a b, ex = .and a b) ∨ (∃ a b, ex = .or a b) ∨ (∃ a, ex = .not a) ∨ isNumLeaf ex = true)
+    (h : convert reg Γ ex (some t) = .ok r) : r.u = [] ∧ t = [] := by
+  have ht : t = [] := by
+    rcases hex with ⟨rr, a, b, rfl⟩ | ⟨f, a, rfl⟩ | ⟨f, a, b, rfl⟩ | ⟨a, b, rfl⟩ | ⟨a, b, rfl⟩ | ⟨a, rfl⟩ | hl
+    · exact dimlessTarget_some (convert_rel_inv h).1
+    · exact dimlessTarget_some (convert_fn1_inv h).1
+    · exact dimlessTarget_some (convert_fnN_inv h).1
+    · exact dimlessTarget_some (convert_and_inv h).1
+    · exact dimlessTarget_some (convert_or_inv h).1
+    · exact dimlessTarget_some (convert_not_inv h).1
+    · exact dimlessTarget_some (convert_numLeaf_inv hl h).1
+  exact ⟨(convert_target h).trans ht, ht⟩
+
+/-! ## 3. (a) the physical value is preserved -/
+
+section value
+variable (I : Interp K) (reg : Registry) (Γ : VarEnv) (ρ : Nat → K) (δ : Nat → Nat → K)
+
+/-- arithmetic clause: the converted expression, read as plain numbers in the reported unit, IS the physical value -/
+def SoundA (ex : E) : Prop :=
+  ∀ (tgt : Option Container) (r : CR) (x : K) (d : Dims), convert reg Γ ex tgt = .ok r →
+    evalPhys I reg Γ ρ δ ex = some (x, d) →
+    evalNum I ρ δ r.e * I.φ (scaleOf reg r.u) = x ∧ dimsOf reg r.u ≃ d
+
+/-- boolean clause: a converted condition has the truth value of the physical comparison -/
+def SoundB (ex : E) : Prop :=
+  ∀ (tgt : Option Container) (r : CR) (p : Bool), convert reg Γ ex tgt = .ok r →
+    physB I reg Γ ρ δ ex = some p → evalB I ρ δ r.e = p
+
+variable {I reg Γ ρ δ}
+
+theorem sound_leaf {ex : E} {frm : Container} {x : K} {d : Dims}
+    (hx : evalNum I ρ δ ex * I.φ (scaleOf reg frm) = x) (hd : dimsOf reg frm ≃ d)
+    {tgt : Option Container} {r : CR} (h : maybeConv reg ex false frm tgt true = .ok r) :
+    evalNum I ρ δ r.e * I.φ (scaleOf reg r.u) = x ∧ dimsOf reg r.u ≃ d := by
+  obtain ⟨h1, h2⟩ := maybeConv_value I ρ δ h
+  exact ⟨h1.trans hx, h2.trans hd⟩
+
+theorem sound_qty (v : Rat) (u : Container) : SoundA I reg Γ ρ δ (.qty v u) := by
+  intro tgt r x d h hp
+  simp only [Convert.convert] at h
+  simp only [evalPhys, Option.some.injEq, Prod.mk.injEq] at hp
+  obtain ⟨rfl, rfl⟩ := hp
+  exact sound_leaf (by simp only [evalNum]) (PMap.Equiv.refl _) h
+
+theorem sound_cf (s : Scale) (u : Container) : SoundA I reg Γ ρ δ (.cf s u) := by
+  intro tgt r x d h hp
+  simp only [Convert.convert] at h
+  simp only [evalPhys, Option.some.injEq, Prod.mk.injEq] at hp
+  obtain ⟨rfl, rfl⟩ := hp
+  exact sound_leaf (by simp only [evalNum]) (PMap.Equiv.refl _) h
+
+theorem sound_var (i : Nat) : SoundA I reg Γ ρ δ (.var i) := by
+  intro tgt r x d h hp
+  obtain ⟨vi, hvi, h'⟩ := convert_var_inv h
+  simp only [evalPhys, hvi, Option.some.injEq, Prod.mk.injEq] at hp
+  obtain ⟨rfl, rfl⟩ := hp
+  exact sound_leaf (by simp only [evalNum]) (PMap.Equiv.refl _) h'
+
+theorem sound_deriv (v t : Nat) : SoundA I reg Γ ρ δ (.deriv v t) := by
+  intro tgt r x d h hp
+  obtain ⟨vv, vt, hvv, hvt, h'⟩ := convert_deriv_inv h
+  simp only [evalPhys, hvv, hvt, Option.some.injEq, Prod.mk.injEq] at hp
+  obtain ⟨rfl, rfl⟩ := hp
+  exact sound_leaf (by simp only [evalNum, φ_scaleOf_divC]) (dimsOf_divC reg _ _) h'
+
+theorem sound_numLeaf {ex : E} (hl : isNumLeaf ex = true)
+    (hp' : ∀ y d, evalPhys I reg Γ ρ δ ex = some (y, d) → y = evalNum I ρ δ ex ∧ d = []) :
+    SoundA I reg Γ ρ δ ex := by
+  intro tgt r x d h hp
+  obtain ⟨_, rfl⟩ := convert_numLeaf_inv hl h
+  obtain ⟨rfl, rfl⟩ := hp' x d hp
+  exact ⟨by simp only [φ_scaleOf_nil, mul_one], dimsOf_nil reg⟩
+
+theorem sound_mul {a b : E} (iha : SoundA I reg Γ ρ δ a) (ihb : SoundA I reg Γ ρ δ b) :
+    SoundA I reg Γ ρ δ (.mul a b) := by
+  intro tgt r z dz h hp
+  obtain ⟨ra, rb, hra, hrb, h'⟩ := convert_mul_inv h
+  rw [rebuild2 (mk := E.mul) (convert_ident hra).2 (convert_ident hrb).2] at h'
+  simp only [evalPhys] at hp
+  split at hp
+  · rename_i x d y d' hpa hpb
+    simp only [Option.some.injEq, Prod.mk.injEq] at hp
+    obtain ⟨rfl, rfl⟩ := hp
+    obtain ⟨hxa, hda⟩ := iha none ra x d hra hpa
+    obtain ⟨hxb, hdb⟩ := ihb none rb y d' hrb hpb
+    obtain ⟨h1, h2⟩ := maybeConv_value I ρ δ h'
+    refine ⟨?_, h2.trans ((dimsOf_mulC reg _ _).trans (add_congr hda hdb))⟩
+    rw [h1, φ_scaleOf_mulC, ← hxa, ← hxb]
+    simp only [evalNum]; ring
+  · cases hp
+
+theorem sound_add {a b : E} (iha : SoundA I reg Γ ρ δ a) (ihb : SoundA I reg Γ ρ δ b) :
+    SoundA I reg Γ ρ δ (.add a b) := by
+  intro tgt r z dz h hp
+  obtain ⟨ra, rb, hra, hrb, rfl⟩ := convert_add_inv h
+  rw [rebuild2 (mk := E.add) (convert_ident hra).2 (convert_ident hrb).2]
+  rw [getD_target hra] at hrb
+  have hu : rb.u = ra.u := convert_target hrb
+  simp only [evalPhys] at hp
+  split at hp
+  · rename_i x d y d' hpa hpb
+    split at hp
+    · rename_i hdd
+      simp only [Option.some.injEq, Prod.mk.injEq] at hp
+      obtain ⟨rfl, rfl⟩ := hp
+      obtain ⟨hxa, hda⟩ := iha tgt ra x d hra hpa
+      obtain ⟨hxb, hdb⟩ := ihb _ rb y d' hrb hpb
+      simp only [hu] at hxb ⊢
+      refine ⟨?_, hda⟩
+      rw [← hxa, ← hxb]
+      simp only [evalNum]; ring
+    · cases hp
+  · cases hp
+
+theorem sound_abs {a : E} (iha : SoundA I reg Γ ρ δ a) : SoundA I reg Γ ρ δ (.abs a) := by
+  intro tgt r z dz h hp
+  obtain ⟨ra, hra, rfl⟩ := convert_abs_inv h
+  rw [rebuild1 (mk := E.abs) (convert_ident hra).2]
+  simp only [evalPhys] at hp
+  split at hp
+  · rename_i x d hpa
+    simp only [Option.some.injEq, Prod.mk.injEq] at hp
+    obtain ⟨rfl, rfl⟩ := hp
+    obtain ⟨hxa, hda⟩ := iha tgt ra x d hra hpa
+    refine ⟨?_, hda⟩
+    simp only [evalNum]
+    rw [← hxa, abs_mul, abs_of_pos (I.φ_pos _)]
+  · cases hp
+
+theorem sound_floor (a : E) : SoundA I reg Γ ρ δ (.floor a) := by
+  intro tgt r z dz h hp; simp only [evalPhys] at hp; cases hp
+
+theorem sound_ceil (a : E) : SoundA I reg Γ ρ δ (.ceil a) := by
+  intro tgt r z dz h hp; simp only [evalPhys] at hp; cases hp
+
+/-- a quantity converted to `dimensionless` carries its physical value as its plain magnitude -/
+theorem dimless_value {ex : E} (ih : SoundA I reg Γ ρ δ ex) {r : CR} {x : K} {d : Dims}
+    (h : convert reg Γ ex (some []) = .ok r) (hp : evalPhys I reg Γ ρ δ ex = some (x, d)) :
+    evalNum I ρ δ r.e = x ∧ r.u = [] := by
+  obtain ⟨hx, _⟩ := ih _ r x d h hp
+  have hu : r.u = [] := convert_target h
+  rw [hu, φ_scaleOf_nil, mul_one] at hx
+  exact ⟨hx, hu⟩
+
+theorem sound_pow {b x : E} (ihb : SoundA I reg Γ ρ δ b) (ihx : SoundA I reg Γ ρ δ x) :
+    SoundA I reg Γ ρ δ (.pow b x) := by
+  intro tgt r z dz h hp
+  obtain ⟨rx, q', rb, hrx, hq', hrb, h'⟩ := convert_pow_inv h
+  rw [rebuild2 (mk := fun x' b' => E.pow b' x') (convert_ident hrx).2 (convert_ident hrb).2] at h'
+  simp only [evalPhys] at hp
+  split at hp
+  · rename_i xb db xx dx q hpb hpx hq
+    split at hp
+    · rename_i hcond
+      obtain ⟨_, hxx⟩ := hcond
+      simp only [Option.some.injEq, Prod.mk.injEq] at hp
+      obtain ⟨rfl, rfl⟩ := hp
+      obtain ⟨hnx, _⟩ := dimless_value ihx hrx hpx
+      have hcl := evalClosed_evalNum I ρ δ rx.e q' hq'
+      have hqq : q' = q := by
+        have : (q' : K) = (q : K) := by rw [← hcl, hnx, hxx]
+        exact Rat.cast_injective this
+      subst hqq
+      obtain ⟨hxb, hdb⟩ := ihb none rb xb db hrb hpb
+      obtain ⟨h1, h2⟩ := maybeConv_value I ρ δ h'
+      refine ⟨?_, h2.trans ((dimsOf_powC reg _ _).trans (smul_congr q' hdb))⟩
+      rw [h1, φ_scaleOf_powC, ← hxb, I.pw_cov]
+      simp only [evalNum, hq']
+    · cases hp
+  · cases hp
+
+theorem sound_fn1 {f : String} {a : E} (iha : SoundA I reg Γ ρ δ a) : SoundA I reg Γ ρ δ (.fn1 f a) := by
+  intro tgt r z dz h hp
+  obtain ⟨_, ra, hra, rfl⟩ := convert_fn1_inv h
+  rw [rebuild1 (mk := E.fn1 f) (convert_ident hra).2]
+  simp only [evalPhys] at hp
+  split at hp
+  · rename_i x d hpa
+    split at hp
+    · simp only [Option.some.injEq, Prod.mk.injEq] at hp
+      obtain ⟨rfl, rfl⟩ := hp
+      obtain ⟨hx, hu⟩ := dimless_value iha hra hpa
+      simp only [evalNum, hx, hu, φ_scaleOf_nil, mul_one, true_and]
+      exact dimsOf_nil reg
+    · cases hp
+  · cases hp
+
+theorem sound_fnN {f : String} {a b : E} (iha : SoundA I reg Γ ρ δ a) (ihb : SoundA I reg Γ ρ δ b) :
+    SoundA I reg Γ ρ δ (.fnN f a b) := by
+  intro tgt r z dz h hp
+  obtain ⟨_, ra, rb, hra, hrb, rfl⟩ := convert_fnN_inv h
+  rw [rebuild2 (mk := E.fnN f) (convert_ident hra).2 (convert_ident hrb).2]
+  simp only [evalPhys] at hp
+  split at hp
+  · rename_i x d y d' hpa hpb
+    split at hp
+    · simp only [Option.some.injEq, Prod.mk.injEq] at hp
+      obtain ⟨rfl, rfl⟩ := hp
+      obtain ⟨hx, _⟩ := dimless_value iha hra hpa
+      obtain ⟨hy, hu⟩ := dimless_value ihb hrb hpb
+      simp only [evalNum, hx, hy, hu, φ_scaleOf_nil, mul_one, true_and]
+      exact dimsOf_nil reg
+    · cases hp
+  · cases hp
+
+theorem sound_ite {c t el : E} (ihc : SoundB I reg Γ ρ δ c) (iht : SoundA I reg Γ ρ δ t)
+    (ihe : SoundA I reg Γ ρ δ el) : SoundA I reg Γ ρ δ (.ite c t el) := by
+  intro tgt r z dz h hp
+  obtain ⟨rt, rc, hrt, hrc, hcase⟩ := convert_ite_inv h
+  simp only [evalPhys] at hp
+  split at hp
+  · rename_i bc x d hpc hpt
+    have hbc := ihc _ rc bc hrc hpc
+    obtain ⟨hxt, hdt⟩ := iht tgt rt x d hrt hpt
+    rcases hcase with ⟨hel, rfl⟩ | ⟨hel, re, hre, rfl⟩
+    · rw [rebuild2 (mk := fun t' c' => E.ite c' t' .undef) (convert_ident hrt).2 (convert_ident hrc).2]
+      simp only [hel, if_true, Option.some.injEq, Prod.mk.injEq] at hp
+      obtain ⟨rfl, rfl⟩ := hp
+      refine ⟨?_, hdt⟩
+      simp only [evalNum, hbc]
+      cases bc
+      · simp
+      · simpa using hxt
+    · rw [rebuild3 (mk := fun t' c' e' => E.ite c' t' e') (convert_ident hrt).2 (convert_ident hrc).2
+        (convert_ident hre).2]
+      rw [getD_target hrt] at hre
+      have hu : re.u = rt.u := convert_target hre
+      simp only [hel, if_false] at hp
+      split at hp
+      · rename_i y d' hpe
+        split at hp
+        · simp only [Option.some.injEq, Prod.mk.injEq] at hp
+          obtain ⟨rfl, rfl⟩ := hp
+          obtain ⟨hxe, _⟩ := ihe _ re y d' hre hpe
+          simp only [hu] at hxe ⊢
+          refine ⟨?_, hdt⟩
+          simp only [evalNum, hbc]
+          cases bc
+          · simpa using hxe
+          · simpa using hxt
+        · cases hp
+      · cases hp
+  · cases hp
+
+theorem sound_rel {rr : Rel} {a b : E} (iha : SoundA I reg Γ ρ δ a) (ihb : SoundA I reg Γ ρ δ b) :
+    SoundB I reg Γ ρ δ (.rel rr a b) := by
+  intro tgt r p h hp
+  obtain ⟨_, ra, rb, hra, hrb, rfl⟩ := convert_rel_inv h
+  rw [rebuild2 (mk := E.rel rr) (convert_ident hra).2 (convert_ident hrb).2]
+  have hu : rb.u = ra.u := convert_target hrb
+  simp only [physB] at hp
+  split at hp
+  · rename_i x d y d' hpa hpb
+    split at hp
+    · simp only [Option.some.injEq] at hp
+      subst hp
+      obtain ⟨hxa, _⟩ := iha none ra x d hra hpa
+      obtain ⟨hxb, _⟩ := ihb _ rb y d' hrb hpb
+      rw [hu] at hxb
+      simp only [evalB]
+      rw [← hxa, ← hxb, relHolds_scale _ _ _ _ (I.φ_pos _)]
+    · cases hp
+  · cases hp
+
+theorem sound_and {a b : E} (iha : SoundB I reg Γ ρ δ a) (ihb : SoundB I reg Γ ρ δ b) :
+    SoundB I reg Γ ρ δ (.and a b) := by
+  intro tgt r p h hp
+  obtain ⟨_, ra, rb, hra, hrb, rfl⟩ := convert_and_inv h
+  rw [rebuild2 (mk := E.and) (convert_ident hra).2 (convert_ident hrb).2]
+  simp only [physB] at hp
+  split at hp
+  · rename_i pa pb hpa hpb
+    simp only [Option.some.injEq] at hp
+    subst hp
+    simp only [evalB, iha _ ra pa hra hpa, ihb _ rb pb hrb hpb]
+  · cases hp
+
+theorem sound_or {a b : E} (iha : SoundB I reg Γ ρ δ a) (ihb : SoundB I reg Γ ρ δ b) :
+    SoundB I reg Γ ρ δ (.or a b) := by
+  intro tgt r p h hp
+  obtain ⟨_, ra, rb, hra, hrb, rfl⟩ := convert_or_inv h
+  rw [rebuild2 (mk := E.or) (convert_ident hra).2 (convert_ident hrb).2]
+  simp only [physB] at hp
+  split at hp
+  · rename_i pa pb hpa hpb
+    simp only [Option.some.injEq] at hp
+    subst hp
+    simp only [evalB, iha _ ra pa hra hpa, ihb _ rb pb hrb hpb]
+  · cases hp
+
+theorem sound_not {a : E} (iha : SoundB I reg Γ ρ δ a) : SoundB I reg Γ ρ δ (.not a) := by
+  intro tgt r p h hp
+  obtain ⟨_, ra, hra, rfl⟩ := convert_not_inv h
+  rw [rebuild1 (mk := E.not) (convert_ident hra).2]
+  simp only [physB] at hp
+  split at hp
+  · rename_i pa hpa
+    simp only [Option.some.injEq] at hp
+    subst hp
+    simp only [evalB, iha _ ra pa hra hpa]
+  · cases hp
+
+theorem soundA_of_none {ex : E} (hn : evalPhys I reg Γ ρ δ ex = none) : SoundA I reg Γ ρ δ ex := by
+  intro tgt r x d _ hp; rw [hn] at hp; cases hp
+
+theorem soundB_of_none {ex : E} (hn : physB I reg Γ ρ δ ex = none) : SoundB I reg Γ ρ δ ex := by
+  intro tgt r p _ hp; rw [hn] at hp; cases hp
+
+variable (I reg Γ ρ δ)
+
+/-- one induction over the one sort of terms, conjunctive motive (arithmetic clause ∧ boolean clause) -/
+theorem convert_sound : ∀ ex : E, SoundA I reg Γ ρ δ ex ∧ SoundB I reg Γ ρ δ ex := by
+  intro ex
+  induction ex with
+  | qty v u => exact ⟨sound_qty v u, soundB_of_none rfl⟩
+  | cf s u => exact ⟨sound_cf s u, soundB_of_none rfl⟩
+  | var i => exact ⟨sound_var i, soundB_of_none rfl⟩
+  | deriv v t => exact ⟨sound_deriv v t, soundB_of_none rfl⟩
+  | int n =>
+      refine ⟨sound_numLeaf rfl ?_, soundB_of_none rfl⟩
+      intro y d hp; simp only [evalPhys, Option.some.injEq, Prod.mk.injEq] at hp
+      obtain ⟨rfl, rfl⟩ := hp; exact ⟨by simp only [evalNum], rfl⟩
+  | rat q =>
+      refine ⟨sound_numLeaf rfl ?_, soundB_of_none rfl⟩
+      intro y d hp; simp only [evalPhys, Option.some.injEq, Prod.mk.injEq] at hp
+      obtain ⟨rfl, rfl⟩ := hp; exact ⟨by simp only [evalNum], rfl⟩
+  | flt q =>
+      refine ⟨sound_numLeaf rfl ?_, soundB_of_none rfl⟩
+      intro y d hp; simp only [evalPhys, Option.some.injEq, Prod.mk.injEq] at hp
+      obtain ⟨rfl, rfl⟩ := hp; exact ⟨by simp only [evalNum], rfl⟩
+  | pi =>
+      refine ⟨sound_numLeaf rfl ?_, soundB_of_none rfl⟩
+      intro y d hp; simp only [evalPhys, Option.some.injEq, Prod.mk.injEq] at hp
+      obtain ⟨rfl, rfl⟩ := hp; exact ⟨by simp only [evalNum], rfl⟩
+  | e =>
+      refine ⟨sound_numLeaf rfl ?_, soundB_of_none rfl⟩
+      intro y d hp; simp only [evalPhys, Option.some.injEq, Prod.mk.injEq] at hp
+      obtain ⟨rfl, rfl⟩ := hp; exact ⟨by simp only [evalNum], rfl⟩
+  | oo => exact ⟨soundA_of_none rfl, soundB_of_none rfl⟩
+  | nan => exact ⟨soundA_of_none rfl, soundB_of_none rfl⟩
+  | add a b iha ihb => exact ⟨sound_add iha.1 ihb.1, soundB_of_none rfl⟩
+  | mul a b iha ihb => exact ⟨sound_mul iha.1 ihb.1, soundB_of_none rfl⟩
+  | pow b x ihb ihx => exact ⟨sound_pow ihb.1 ihx.1, soundB_of_none rfl⟩
+  | abs a iha => exact ⟨sound_abs iha.1, soundB_of_none rfl⟩
+  | floor a _ => exact ⟨sound_floor a, soundB_of_none rfl⟩
+  | ceil a _ => exact ⟨sound_ceil a, soundB_of_none rfl⟩
+  | fn1 f a iha => exact ⟨sound_fn1 iha.1, soundB_of_none rfl⟩
+  | fnN f a b iha ihb => exact ⟨sound_fnN iha.1 ihb.1, soundB_of_none rfl⟩
+  | ite c t el ihc iht ihe => exact ⟨sound_ite ihc.2 iht.1 ihe.1, soundB_of_none rfl⟩
+  | undef => exact ⟨soundA_of_none rfl, soundB_of_none rfl⟩
+  | rel rr a b iha ihb => exact ⟨soundA_of_none rfl, sound_rel iha.1 ihb.1⟩
+  | and a b iha ihb => exact ⟨soundA_of_none rfl, sound_and iha.2 ihb.2⟩
+  | or a b iha ihb => exact ⟨soundA_of_none rfl, sound_or iha.2 ihb.2⟩
+  | not a iha => exact ⟨soundA_of_none rfl, sound_not iha.2⟩
+  | tt =>
+      refine ⟨soundA_of_none rfl, ?_⟩
+      intro tgt r p h hp
+      obtain ⟨_, rfl⟩ := convert_numLeaf_inv rfl h
+      simp only [physB, Option.some.injEq] at hp; subst hp; rfl
+  | ff =>
+      refine ⟨soundA_of_none rfl, ?_⟩
+      intro tgt r p h hp
+      obtain ⟨_, rfl⟩ := convert_numLeaf_inv rfl h
+      simp only [physB, Option.some.injEq] at hp; subst hp; rfl
+  | other n => exact ⟨soundA_of_none rfl, soundB_of_none rfl⟩
+
+/-- **(a)** For every registry, environment, expression, target (or none), valuation of the variables `ρ` and of the
+    derivatives `δ`, and every interpretation: if the expression denotes the physical quantity `(x, d)` and the
+    conversion succeeds with `r`, then the result read as plain numbers (`evalNum`) in the reported unit `r.u` IS that
+    quantity: magnitude × SI scale of `r.u` = `x`, dimension of `r.u` = `d`. (Expressions containing `floor`/`ceiling`
+    have no `evalPhys`: known finding, see `floor_value_changes`.) -/
+theorem convert_value {ex : E} {tgt : Option Container} {r : CR} {x : K} {d : Dims}
+    (h : convert reg Γ ex tgt = .ok r) (hp : evalPhys I reg Γ ρ δ ex = some (x, d)) :
+    evalNum I ρ δ r.e * I.φ (scaleOf reg r.u) = x ∧ dimsOf reg r.u ≃ d :=
+  (convert_sound I reg Γ ρ δ ex).1 tgt r x d h hp
+
+/-- (a) for conditions: the converted condition has the truth value of the comparison of the physical quantities -/
+theorem convert_cond {ex : E} {tgt : Option Container} {r : CR} {p : Bool}
+    (h : convert reg Γ ex tgt = .ok r) (hp : physB I reg Γ ρ δ ex = some p) : evalB I ρ δ r.e = p :=
+  (convert_sound I reg Γ ρ δ ex).2 tgt r p h hp
+
+/-- (a), original against result: both sides read as plain numbers in their own units. With an explicit target `t`
+    the right-hand unit is `t` itself. -/
+theorem convert_value_target {ex : E} {t : Container} {r : CR} {x : K} {d : Dims}
+    (h : convert reg Γ ex (some t) = .ok r) (hp : evalPhys I reg Γ ρ δ ex = some (x, d)) :
+    evalNum I ρ δ r.e * I.φ (scaleOf reg t) = x ∧ dimsOf reg t ≃ d := by
+  have := convert_value I reg Γ ρ δ h hp
+  rwa [convert_target h] at this
+
+end value
+
+/-! ## 4. (b) the result passes strict unit inference with a unit equivalent to the reported one
+
+    Partial in two declared ways. (1) Fragment `strictFrag`: every operator that has a unit except `oo`/`nan`
+    (leaves, derivatives, numbers, `*`, `+`, `**` with a numeric exponent = product of numeric leaves, `abs`, `floor`,
+    `ceiling`, one-argument functions, `Piecewise` with arbitrary conditions). Outside it `traverse` itself always
+    fails (relations and boolean terms: BooleanUnitsError; `Max`/`Min`/`Mod`: UnexpectedMathUnitsError) or the exponent
+    magnitude is not tracked. (2) Units range over a class `UClass` on which "factor one" implies `is_equivalent`; this
+    excludes pint's dimensionless root units (`radian`), for which clause (b) is FALSE in cellmlmanip
+    (`radian_not_strict`, a consequence of the known finding of C07). Python exceptions raised by arithmetic on the
+    MAGNITUDES that `traverse` carries along (`magErr`) are not UnitErrors and are the only other outcome. -/
+
+/-- **(b)** strict inference of the result either succeeds with a unit `is_equivalent` to the reported one, or stops
+    with a Python arithmetic exception on magnitudes — never with a UnitError -/
+theorem convert_strict_partial {reg : Registry} {Γ : VarEnv} (C : UClass reg)
+    (hΓ : ∀ (i : Nat) (vi : VarInfo), Γ[i]? = some vi → C.P vi.unit) {ex : E} (hf : strictFrag ex = true)
+    (hu : unitsIn C.P ex) {tgt : Option Container} (ht : ∀ t, tgt = some t → C.P t) {r : CR}
+    (h : convert reg Γ ex tgt = .ok r) :
+    (∃ m u', traverse reg Γ r.e = .ok (m, u') ∧ isEquivalent reg u' r.u = true) ∨
+    (∃ err, traverse reg Γ r.e = .error err ∧ magErr err = true) := by
+  have hg := (convert_strict_aux C hΓ ex hf hu tgt r ht h).1
+  cases hq : traverse reg Γ r.e with
+  | ok q => rw [hq] at hg; exact Or.inl ⟨q.1, q.2, rfl, hg⟩
+  | error err => rw [hq] at hg; exact Or.inr ⟨err, rfl, hg⟩
+
+/-- (b), success form: whenever inference of the result succeeds its unit is equivalent to the reported unit, and to
+    the target when one was given -/
+theorem convert_strict_ok {reg : Registry} {Γ : VarEnv} (C : UClass reg)
+    (hΓ : ∀ (i : Nat) (vi : VarInfo), Γ[i]? = some vi → C.P vi.unit) {ex : E} (hf : strictFrag ex = true)
+    (hu : unitsIn C.P ex) {tgt : Option Container} (ht : ∀ t, tgt = some t → C.P t) {r : CR}
+    (h : convert reg Γ ex tgt = .ok r) {m : M} {u' : Container} (hq : traverse reg Γ r.e = .ok (m, u')) :
+    isEquivalent reg u' r.u = true ∧ (∀ t, tgt = some t → isEquivalent reg u' t = true) := by
+  have hg := (convert_strict_aux C hΓ ex hf hu tgt r ht h).1
+  rw [hq] at hg
+  refine ⟨hg, ?_⟩
+  intro t htt; subst htt
+  have := convert_target h
+  rw [this] at hg; exact hg
+
+/-- (b), failure form: inference of the result never raises a UnitError -/
+theorem convert_strict_no_unit_error {reg : Registry} {Γ : VarEnv} (C : UClass reg)
+    (hΓ : ∀ (i : Nat) (vi : VarInfo), Γ[i]? = some vi → C.P vi.unit) {ex : E} (hf : strictFrag ex = true)
+    (hu : unitsIn C.P ex) {tgt : Option Container} (ht : ∀ t, tgt = some t → C.P t) {r : CR}
+    (h : convert reg Γ ex tgt = .ok r) {err : UnitErr} (hq : traverse reg Γ r.e = .error err) :
+    magErr err = true ∧ isUnitError err = false := by
+  have hg := (convert_strict_aux C hΓ ex hf hu tgt r ht h).1
+  rw [hq] at hg
+  have hm : magErr err = true := hg
+  refine ⟨hm, ?_⟩
+  cases err <;> first | rfl | cases hm
+
+/-- the class hypothesis is consistent for every registry (degenerate instance: the dimensionless unit) -/
+def dimlessClass (reg : Registry) : UClass reg where
+  P c := c = []
+  nil := rfl
+  mul := by intro a b ha hb; subst ha; subst hb; rfl
+  div := by intro a b ha hb; subst ha; subst hb; rfl
+  pow := by intro a q ha; subst ha; rfl
+  faithful := by intro a b ha hb _; subst ha; subst hb; exact Cellml.Props.C07.equiv_refl reg []
+
+/-- clause (b) fails for `radian` in cellmlmanip itself (same root cause as the known finding of C07: `radian` is a
+    root unit without a dimension, so it converts to `dimensionless` with factor one without being `is_equivalent`):
+    `x [radian] + y [dimensionless]` is returned unchanged, in radian, and strict inference rejects it -/
+theorem radian_not_strict :
+    convert builtinRegistry [⟨[("radian", 1)], none⟩, ⟨[], none⟩] (.add (.var 0) (.var 1)) none =
+      .ok ⟨.add (.var 0) (.var 1), false, [("radian", 1)], true⟩ ∧
+    traverse builtinRegistry [⟨[("radian", 1)], none⟩, ⟨[], none⟩] (.add (.var 0) (.var 1)) =
+      .error .argsInvalidUnits := by
+  refine ⟨by decide +kernel, by decide +kernel⟩
+
+/-- non-vacuity of (b) on real units: the converted sum `x [mV] + 10³·y [V]` infers to mV -/
+example : traverse regMV [⟨[("mV", 1)], none⟩, ⟨[("volt", 1)], none⟩]
+    (.add (.var 0) (.mul (.cf [(2, 3), (5, 3)] [("mV", 1), ("volt", -1)]) (.var 1))) = .ok (.sym, [("mV", 1)]) := by
+  decide +kernel
+
+/-! ## 5. (c) the very same object when no conversion is needed -/
+
+/-- `was_converted = False` ⇒ the returned expression is the argument and it is the same object (`same`); and
+    conversely the same object is only ever returned when nothing was converted. `same` records whether
+    `expr.func(*new_args)` or `cf * expr` ran, which is what Python object identity depends on. -/
+theorem convert_identity {reg : Registry} {Γ : VarEnv} {ex : E} {tgt : Option Container} {r : CR}
+    (h : convert reg Γ ex tgt = .ok r) :
+    (r.wc = false → r.e = ex ∧ r.same = true) ∧ (r.same = true → r.e = ex ∧ r.wc = false) := by
+  obtain ⟨hs, he⟩ := convert_ident h
+  constructor
+  · intro hw; exact ⟨he hw, by rw [hs, hw]; rfl⟩
+  · intro hsame
+    have hw : r.wc = false := by rw [hs] at hsame; simpa using hsame
+    exact ⟨he hw, hw⟩
+
+/-- when something was converted a factor Quantity was inserted somewhere, so the object is new -/
+theorem convert_changed {reg : Registry} {Γ : VarEnv} {ex : E} {tgt : Option Container} {r : CR}
+    (h : convert reg Γ ex tgt = .ok r) (hw : r.wc = true) : r.same = false := by
+  rw [(convert_ident h).1, hw]; rfl
+
+/-- the `Mul` branch as it was before the repair (findings/C05.json, `identity:mul-explicit-target`): the product was
+    rebuilt whenever a target was given -/
+def convertMulToday (reg : Registry) (Γ : VarEnv) (a b : E) (tgt : Option Container) : Except UnitErr CR := do
+  let ra ← convert reg Γ a none
+  let rb ← convert reg Γ b none
+  let wc := ra.wc || rb.wc
+  let rebuilt := tgt.isSome || wc
+  maybeConv reg (if rebuilt then .mul ra.e rb.e else .mul a b) wc (mulC ra.u rb.u) tgt (!rebuilt)
+
+/-- the defect that was repaired: a product with an explicit, already satisfied target came back as a NEW object
+    although nothing was converted -/
+theorem mulToday_not_identical :
+    convertMulToday builtinRegistry [] (.qty 2 [("volt", 1)]) (.qty 3 [("second", 1)])
+        (some [("second", 1), ("volt", 1)]) =
+      .ok ⟨.mul (.qty 2 [("volt", 1)]) (.qty 3 [("second", 1)]), false, [("second", 1), ("volt", 1)], false⟩ := by
+  decide +kernel
+
+/-- … and the repaired branch returns the same object on that input -/
+theorem mulFixed_identical :
+    convert builtinRegistry [] (.mul (.qty 2 [("volt", 1)]) (.qty 3 [("second", 1)]))
+        (some [("second", 1), ("volt", 1)]) =
+      .ok ⟨.mul (.qty 2 [("volt", 1)]) (.qty 3 [("second", 1)]), false, [("second", 1), ("volt", 1)], true⟩ := by
+  decide +kernel
+
+/-! ## known finding `value-changed:floor-ceil`: `floor`/`ceiling` are not scale-covariant -/
+
+/-- registry with `mV = 10⁻³ volt` on top of the built-in units -/
+def regMV : Registry := ("mV", .derived (pow10 (-3)) [("volt", 1)]) :: builtinRegistry
+
+/-- `floor(x)` with `x = 1500 mV`, brought to volt: the conversion is pushed into the argument, `floor(10⁻³·x)` V = 1 V,
+    whereas the original denotes `floor(1500)` mV = 1.5 V. (Pinned by tests/test_units.py::test_abs_ceil_floor.) -/
+theorem floor_value_changes :
+    convert regMV [⟨[("mV", 1)], none⟩] (.floor (.var 0)) (some [("volt", 1)]) =
+      .ok ⟨.floor (.mul (.cf [(2, -3), (5, -3)] [("mV", -1), ("volt", 1)]) (.var 0)), true, [("volt", 1)], false⟩ ∧
+    evalQ (fun _ => 1500) (.floor (.mul (.cf [(2, -3), (5, -3)] [("mV", -1), ("volt", 1)]) (.var 0))) *
+        scaleQ (scaleOf regMV [("volt", 1)]) = 1 ∧
+    evalQ (fun _ => 1500) (.floor (.var 0)) * scaleQ (scaleOf regMV [("mV", 1)]) = 3 / 2 := by
+  refine ⟨by decide +kernel, by decide +kernel, by decide +kernel⟩
+
+/-! ## 6. invalid expressions and unreachable targets are rejected, and only with the documented errors -/
+
+section rejects
+variable (I : Interp K) (reg : Registry) (Γ : VarEnv) (ρ : Nat → K) (δ : Nat → Nat → K)
+
+/-- the target cannot be reached: an expression of dimension `d` is never returned in a unit of another dimension -/
+theorem convert_rejects_target {ex : E} {t : Container} {x : K} {d : Dims}
+    (hp : evalPhys I reg Γ ρ δ ex = some (x, d)) (hne : ¬ dimsOf reg t ≃ d) :
+    ∃ err, convert reg Γ ex (some t) = .error err := by
+  cases hc : convert reg Γ ex (some t) with
+  | error err => exact ⟨err, rfl⟩
+  | ok r => exact absurd (convert_value_target I reg Γ ρ δ hc hp).2 hne
+
+/-- two operands of a sum with different dimensions -/
+theorem convert_rejects_add {a b : E} {tgt : Option Container} {x y : K} {d d' : Dims}
+    (ha : evalPhys I reg Γ ρ δ a = some (x, d)) (hb : evalPhys I reg Γ ρ δ b = some (y, d')) (hne : ¬ d ≃ d') :
+    ∃ err, convert reg Γ (.add a b) tgt = .error err := by
+  cases hc : convert reg Γ (.add a b) tgt with
+  | error err => exact ⟨err, rfl⟩
+  | ok r =>
+      exfalso
+      obtain ⟨ra, rb, hra, hrb, _⟩ := convert_add_inv hc
+      rw [getD_target hra] at hrb
+      have h1 := (convert_value I reg Γ ρ δ hra ha).2
+      have h2 := (convert_value I reg Γ ρ δ hrb hb).2
+      rw [convert_target hrb] at h2
+      exact hne (h1.symm.trans h2)
+
+/-- two comparands with different dimensions -/
+theorem convert_rejects_rel {rr : Rel} {a b : E} {tgt : Option Container} {x y : K} {d d' : Dims}
+    (ha : evalPhys I reg Γ ρ δ a = some (x, d)) (hb : evalPhys I reg Γ ρ δ b = some (y, d')) (hne : ¬ d ≃ d') :
+    ∃ err, convert reg Γ (.rel rr a b) tgt = .error err := by
+  cases hc : convert reg Γ (.rel rr a b) tgt with
+  | error err => exact ⟨err, rfl⟩
+  | ok r =>
+      exfalso
+      obtain ⟨_, ra, rb, hra, hrb, _⟩ := convert_rel_inv hc
+      have h1 := (convert_value I reg Γ ρ δ hra ha).2
+      have h2 := (convert_value I reg Γ ρ δ hrb hb).2
+      rw [convert_target hrb] at h2
+      exact hne (h1.symm.trans h2)
+
+/-- two pieces of a Piecewise with different dimensions -/
+theorem convert_rejects_ite {c t el : E} {tgt : Option Container} {x y : K} {d d' : Dims} (hel : el ≠ .undef)
+    (ht : evalPhys I reg Γ ρ δ t = some (x, d)) (he : evalPhys I reg Γ ρ δ el = some (y, d')) (hne : ¬ d ≃ d') :
+    ∃ err, convert reg Γ (.ite c t el) tgt = .error err := by
+  cases hc : convert reg Γ (.ite c t el) tgt with
+  | error err => exact ⟨err, rfl⟩
+  | ok r =>
+      exfalso
+      obtain ⟨rt, rc, hrt, _, hcase⟩ := convert_ite_inv hc
+      rcases hcase with ⟨h0, _⟩ | ⟨_, re, hre, _⟩
+      · exact hel h0
+      · rw [getD_target hrt] at hre
+        have h1 := (convert_value I reg Γ ρ δ hrt ht).2
+        have h2 := (convert_value I reg Γ ρ δ hre he).2
+        rw [convert_target hre] at h2
+        exact hne (h1.symm.trans h2)
+
+/-- the argument of a function that is not dimensionless -/
+theorem convert_rejects_fn1 {f : String} {a : E} {tgt : Option Container} {x : K} {d : Dims}
+    (ha : evalPhys I reg Γ ρ δ a = some (x, d)) (hne : ¬ d ≃ []) :
+    ∃ err, convert reg Γ (.fn1 f a) tgt = .error err := by
+  cases hc : convert reg Γ (.fn1 f a) tgt with
+  | error err => exact ⟨err, rfl⟩
+  | ok r =>
+      exfalso
+      obtain ⟨_, ra, hra, _⟩ := convert_fn1_inv hc
+      have h1 := (convert_value_target I reg Γ ρ δ hra ha).2
+      exact hne (h1.symm.trans (dimsOf_nil reg))
+
+end rejects
+
+/-- at a leaf between known units the error is exactly UnitConversionError -/
+theorem convert_rejects_leaf {reg : Registry} {Γ : VarEnv} {v : Rat} {u t : Container}
+    (hk : allKnown reg u = true) (hk' : allKnown reg t = true) (hne : ¬ dimsOf reg u ≃ dimsOf reg t) :
+    convert reg Γ (.qty v u) (some t) = .error .cannotConvert := by
+  simp only [Convert.convert]; exact (maybeConv_cannotConvert_iff hk hk').mpr hne
+
+/-- every error is one of the documented UnitError classes (UnexpectedMathUnitsError,
+    InputArgumentsMustBeDimensionlessError, InputArgumentMustBeNumberError, BooleanUnitsError, UnitConversionError),
+    or pint's UndefinedUnitError (a unit name the registry does not know: `maybeConv_error`), or one of the two
+    situations outside the modelled fragment: a variable index outside the environment, an exponent whose numeric
+    value the exact model does not track (irrational, or a conversion factor ≠ 1 inside the exponent) -/
+theorem convert_error_class {reg : Registry} {Γ : VarEnv} {ex : E} {tgt : Option Container} {err : UnitErr}
+    (h : convert reg Γ ex tgt = .error err) : errClass err = true := convert_errClass ex tgt err h
+
+/-- the UndefinedUnitError comes from pint only when a unit name is unknown to the registry -/
+theorem undefinedUnit_only_unknown {reg : Registry} {ex : E} {wc : Bool} {frm t : Container} {same : Bool}
+    (h : maybeConv reg ex wc frm (some t) same = .error (.otherException "UndefinedUnitError")) :
+    (allKnown reg frm && allKnown reg t) = false := by
+  cases hk : (allKnown reg frm && allKnown reg t) with
+  | false => rfl
+  | true =>
+      exfalso
+      simp only [Bool.and_eq_true] at hk
+      obtain ⟨t', ht', hc⟩ := maybeConv_error h
+      cases ht'
+      rcases hc with ⟨h1, _⟩ | ⟨_, e', hf, hne⟩
+      · cases h1
+      · unfold factor at hf
+        simp only [hk.1, hk.2, Bool.and_self, Bool.not_true, Bool.false_eq_true, if_false] at hf
+        split at hf
+        · cases hf
+        · simp only [Except.error.injEq] at hf; exact hne hf.symm
+
+/-! ## non-vacuity: concrete conversions on the built-in registry -/
+
+/-- volt + joule/coulomb with no target: equivalent units, nothing converted, the same object -/
+example : convert builtinRegistry []
+    (.add (.qty 1 [("volt", 1)]) (.qty 2 [("coulomb", -1), ("joule", 1)])) none =
+    .ok ⟨.add (.qty 1 [("volt", 1)]) (.qty 2 [("coulomb", -1), ("joule", 1)]), false, [("volt", 1)], true⟩ := by
+  decide +kernel
+
+/-- litre to cubic metre: factor 10⁻³ as a Quantity in m³/l -/
+example : convert builtinRegistry [] (.qty 1 [("liter", 1)]) (some [("meter", 3)]) =
+    .ok ⟨.mul (.cf [(2, -3), (5, -3)] [("liter", -1), ("meter", 3)]) (.qty 1 [("liter", 1)]), true, [("meter", 3)],
+         false⟩ := by
+  decide +kernel
+
+/-- first-operand rule with a real conversion, inside a Piecewise with a condition between different scales -/
+example : convert regMV [⟨[("mV", 1)], none⟩, ⟨[("volt", 1)], none⟩]
+    (.ite (.rel .lt (.var 0) (.var 1)) (.add (.var 0) (.var 1)) .undef) none =
+    .ok ⟨.ite (.rel .lt (.var 0) (.mul (.cf [(2, 3), (5, 3)] [("mV", 1), ("volt", -1)]) (.var 1)))
+           (.add (.var 0) (.mul (.cf [(2, 3), (5, 3)] [("mV", 1), ("volt", -1)]) (.var 1))) .undef,
+         true, [("mV", 1)], false⟩ := by
+  decide +kernel
+
+example : convert builtinRegistry [] (.add (.qty 1 [("volt", 1)]) (.qty 2 [("second", 1)])) none =
+    .error .cannotConvert := by decide +kernel
+
+example : convert builtinRegistry [] (.qty 1 [("volt", 1)]) (some [("furlong", 1)]) =
+    .error (.otherException "UndefinedUnitError") := by decide +kernel
+
 end Cellml.Props.C05
